@@ -20,10 +20,48 @@ func B(name string) int {
 
 // HsOpts describes the handshake call under test.
 type HsOpts struct {
-	ConsumedBound  int  // bytes the endpoint may consume while it is still *parsing*
-	ClosesOnFail   bool // the endpoint itself closes the conn when the handshake fails
-	DiscardsOnFail bool // obfs4 server: after failing it keeps reading and discarding until the close deadline
-	ExpectSuccess  bool // the exchange is unmodified: the handshake must succeed
+	ConsumedBound  int    // bytes the endpoint may consume while it is still *parsing*
+	ClosesOnFail   bool   // the endpoint itself closes the conn when the handshake fails
+	DiscardsOnFail bool   // obfs4 server: after failing it keeps reading and discarding until the close deadline
+	ExpectSuccess  bool   // the exchange is unmodified: the handshake must succeed
+	Kind           string // deadline-discipline model of the wrapper: plain | socks | obfs4srv
+}
+
+// OpTrace renders the conn operations of a log in the alphabet of O4/Model/C10Deadline.lean
+// (runs of Read calls collapsed).
+func OpTrace(log []Ev) string {
+	var b []byte
+	for _, e := range log {
+		var ch byte
+		switch e.Kind {
+		case "deadline":
+			ch = 'c'
+			if e.Armed {
+				ch = 'a'
+			}
+		case "rdeadline":
+			ch = 'c'
+			if e.Armed {
+				ch = 'r'
+			}
+		case "close":
+			ch = 'x'
+		case "readcall":
+			ch = 'R'
+			if len(b) > 0 && b[len(b)-1] == 'R' {
+				continue
+			}
+		case "write", "writeerr":
+			ch = 'W'
+		default:
+			continue
+		}
+		b = append(b, ch)
+	}
+	if len(b) == 0 {
+		return "-"
+	}
+	return string(b)
 }
 
 // FinishHandshake drives a handshake call (Dial / WrapConn / socks5.Handshake), whose input
@@ -36,6 +74,7 @@ type HsOpts struct {
 func (x *Ctx) FinishHandshake(c *Conn, call *Call, o HsOpts) (ok bool) {
 	st := x.Await(c, call)
 	timedOut := false
+	timedOutNoDeadline := false
 	if st == Blocked {
 		// the peer is silent: let the handshake deadline expire
 		c.ElapseDeadlines()
@@ -43,6 +82,7 @@ func (x *Ctx) FinishHandshake(c *Conn, call *Call, o HsOpts) (ok bool) {
 		st = x.Await(c, call)
 		if st == Blocked {
 			x.Violate("no-deadline", fmt.Sprintf("%s is blocked in Read with no deadline armed: an unresponsive peer is never dropped; log: %s", call.Name, LogSummary(c.Log())))
+			timedOutNoDeadline = true
 			c.FeedEOF()
 			st = x.Await(c, call)
 		}
@@ -89,6 +129,23 @@ func (x *Ctx) FinishHandshake(c *Conn, call *Call, o HsOpts) (ok bool) {
 		}
 		if o.ClosesOnFail && !c.Closed() {
 			x.Violate("not-closed-on-failure", fmt.Sprintf("%s failed (%s) but left the connection open; log: %s", call.Name, ErrClass(call.Err), LogSummary(log)))
+		}
+	}
+	// the same trace judged by the Lean verdict function of this wrapper kind (model tie): the
+	// theorems say the modelled wrappers / the obfs4 server machine only produce traces with
+	// verdict 1
+	if x.DD != nil && o.Kind != "" && !timedOutNoDeadline {
+		okb := "0"
+		if call.Err == nil {
+			okb = "1"
+		}
+		tr := OpTrace(log)
+		rep := x.DD(o.Kind, okb, tr)
+		x.R.Validated(1)
+		x.R.Count(x.Case.Prefix()+"/deadline-verdict", o.Kind+":"+rep)
+		if rep != "1" && !x.viol {
+			x.R.Violate(x.Case.Prefix()+"-deadline-model-impl-disagree", "correspondence",
+				fmt.Sprintf("%s: %s returned ok=%s with conn operations %s: the Lean deadline-discipline verdict for wrapper kind %q is %s", x.Case.Key(), call.Name, okb, tr, o.Kind, rep), x.Case)
 		}
 	}
 	// consumption while parsing
